@@ -574,16 +574,8 @@ func evalC18(sc *c18Scenario, obs *c18Obs, rc *ruleCtx) {
 						if firstDelta == nil || firstDelta.Hash != fo.Delta {
 							rc.fail("C18.F3", "delta_not_from_first_answering_location", fmt.Sprintf("%s: returned delta %s is not the answer of the first location that answered (index %d)", tag, w.specName(fo.Delta), firstIdx))
 						}
-						// locations must be tried in order
-						var last time.Time
-						for j := range urls {
-							if j < len(fo.XDelta) && fo.XDelta[j].Rec.Begun {
-								if fo.XDelta[j].Rec.TBegin.Before(last) {
-									rc.fail("C18.F3", "locations_out_of_order", tag+": delta locations were not tried in the advertised order")
-								}
-								last = fo.XDelta[j].Rec.TBegin
-							}
-						}
+						// (the statement fixes WHICH answer is taken, not the order in
+						// which locations are contacted: that order is not judged)
 					}
 				}
 				// written to the cache before returning
